@@ -643,8 +643,16 @@ class LinearModel(Model):
     @property
     def T(self):
         """Transpose of linear model. Returns a new linear model acting as the transpose."""
-        transpose = LinearModel(self.adjoint,self.forward,self.domain_geometry,self.range_geometry)
-        if self._matrix is not None:
+        if self._matrix_is_given:
+            # Transposed matrix with swapped geometries
+            return LinearModel(self._matrix.T,
+                               range_geometry=self.domain_geometry,
+                               domain_geometry=self.range_geometry)
+        # Swap the underlying operators (not self.adjoint and self.forward,
+        # which already map parameters to parameters through the geometries)
+        transpose = LinearModel(self._adjoint_func, self._forward_func,
+                                self.domain_geometry, self.range_geometry)
+        if self._matrix is not None: # Assembled matrix of the forward operator
             transpose._matrix = self._matrix.T
         return transpose
         
